@@ -292,7 +292,7 @@ impl Part for Valid {
     }
     fn cases(&self, tier: Tier) -> usize {
         match tier {
-            Tier::Quick => 24_000,
+            Tier::Quick => 72_000,
             Tier::Thorough => 1_200_000,
         }
     }
@@ -539,7 +539,7 @@ impl Part for Recombine {
     }
     fn cases(&self, tier: Tier) -> usize {
         match tier {
-            Tier::Quick => 24_000,
+            Tier::Quick => 72_000,
             Tier::Thorough => 1_200_000,
         }
     }
@@ -573,7 +573,7 @@ impl Part for Lattice {
     }
     fn cases(&self, tier: Tier) -> usize {
         match tier {
-            Tier::Quick => 16_000,
+            Tier::Quick => 48_000,
             Tier::Thorough => 800_000,
         }
     }
